@@ -239,6 +239,23 @@ class InstrOps:
         if o == "*":
             return FloatV(z3.fpMul(rm, fa, fb))
         if o == "/":
+            sf = getattr(self, "small_floats", None)
+            if sf and not isinstance(a, float) and not isinstance(b, float) and a.get_id() in sf and b.get_id() in sf:
+                import math
+                _, xa, ba, na = sf[a.get_id()]
+                _, xb, bb, nb = sf[b.get_id()]
+                def q(i, j):
+                    if j == 0:
+                        return math.nan if i == 0 else math.inf
+                    return i / j
+                F = z3.Float64()
+                res = None
+                for i in range(na, -1, -1):
+                    row = z3.FPVal(q(i, nb), F)
+                    for j in range(nb - 1, -1, -1):
+                        row = z3.If(to_z3_bool(int_cmp("==", xb, j, bb, False)), z3.FPVal(q(i, j), F), row)
+                    res = row if res is None else z3.If(to_z3_bool(int_cmp("==", xa, i, ba, False)), row, res)
+                return FloatV(res)
             return FloatV(z3.fpDiv(rm, fa, fb))
         return {"==": z3.fpEQ, "!=": z3.fpNEQ, "<": z3.fpLT, "<=": z3.fpLEQ, ">": z3.fpGT, ">=": z3.fpGEQ}[o](fa, fb)
 
@@ -393,6 +410,20 @@ class InstrOps:
             if fc == "int" and tc == "float":
                 if isinstance(x, int):
                     return FloatV(float(x))
+                N = self.opts.get("small_int_float")
+                if N:
+                    # opt-in: the operand is a small counter (0..N, proven as an obligation): convert by case analysis over
+                    # concrete doubles instead of a 64-bit int->fp circuit; a quotient of two such values is tabulated too
+                    bits = fd["bits"]
+                    self.oblige("unwind", "small_int_float: converted integer exceeds %d" % N, guard,
+                                b_and(int_cmp(">=", x, 0, bits, not fd["unsigned"]), int_cmp("<=", x, N, bits, not fd["unsigned"])), ins.get("pos"), fr.fn["name"])
+                    e = z3.FPVal(float(N), z3.Float64())
+                    for k in range(N - 1, -1, -1):
+                        e = z3.If(to_z3_bool(int_cmp("==", x, k, bits, False)), z3.FPVal(float(k), z3.Float64()), e)
+                    if not hasattr(self, "small_floats"):
+                        self.small_floats = {}
+                    self.small_floats[e.get_id()] = (e, x, bits, N)
+                    return FloatV(e)
                 e = z3.fpSignedToFP(z3.RNE(), x, z3.Float64()) if not fd["unsigned"] else z3.fpUnsignedToFP(z3.RNE(), x, z3.Float64())
                 return FloatV(e)
             if fc == "float" and tc == "int":
@@ -589,6 +620,17 @@ class InstrOps:
     def i_MakeSlice(self, fr, env, ins, guard, state):
         ln = self.val(env, ins["len"])
         cp = self.val(env, ins["cap"])
+        # len/cap operands may be of any integer type (make([]byte, someUint32)): widen to the 64-bit int used for slice headers
+        rt = fr.fn.get("_regtypes", {})
+        for nm in ("len", "cap"):
+            o = ins[nm]
+            ot = o.get("t") if o["k"] == "const" else rt.get(o.get("n"))
+            ii = self.prog.int_info(ot) if ot else None
+            if ii is not None and ii != (64, True):
+                if nm == "len":
+                    ln = int_convert(ln, ii[0], ii[1], 64, True)
+                else:
+                    cp = int_convert(cp, ii[0], ii[1], 64, True)
         t, d = self.prog.under(ins["type"])
         elem = d["elem"]
         if isinstance(cp, int):
@@ -1108,6 +1150,33 @@ class InstrOps:
                 return None
         if name.startswith("ssa:wrapnilchk"):
             return args[0]
+        if name == "SliceData":
+            # unsafe.SliceData(s): pointer to the first element of s (nil when s has no addressable element)
+            x = args[0]
+            if isinstance(x, SliceV):
+                return self.elem_ptr_clamped(x.arr, x.off)
+            raise Unsupported("unsafe.SliceData of %r" % (x,))
+        if name == "String":
+            # unsafe.String(p, n): the n bytes starting at element pointer p, as a (snapshot) string value
+            p, n = args
+            res = None
+            for g, r in reversed(p.alts):
+                if r is None or not r.path or not isinstance(r.path[-1], int):
+                    s = StrV([], 0)
+                    avail = 0
+                else:
+                    o = self.heap[r.obj]
+                    arr = self.get_path(o.val, r.path[:-1])
+                    j = r.path[-1]
+                    avail = len(arr.elems) - j
+                    s = StrV([self.read_cell(o, r.path[:-1] + (i,), b_and(guard, g)) for i in range(j, len(arr.elems))], n)
+                    if isinstance(n, int):
+                        s = StrV(s.chars[:max(0, n)], max(0, min(n, avail)))
+                ok = b_and(int_cmp(">=", n, 0, 64, True), int_cmp("<=", n, avail, 64, True))
+                if ok is not True:
+                    self.oblige("panic", "unsafe.String length out of range of the underlying array", b_and(guard, g, b_not(ok)), False, ins.get("pos"), fr.fn["name"])
+                res = s if res is None else self.ite(g, s, res, ins["type"])
+            return res if res is not None else StrV([], 0)
         raise Unsupported("builtin " + name)
 
     def store_noNil(self, p, val, guard):
